@@ -5886,7 +5886,10 @@ class Symbol:
             for value, cond, _ in self.weak_rev_values:
                 if expr_value(cond) and expr_value(self.direct_dep):
                     if self.orig_type == STRING:
-                        return value.str_value
+                        # (an empty weakly-set value falls through to the defaults, as in str_value)
+                        if value.str_value:
+                            return value.str_value
+                        break
                     if self.orig_type == FLOAT:
                         if is_float(value.name):
                             return _normalize_float(value.name)
